@@ -13,6 +13,7 @@ package expressions
 //@ method Evaluate
 //@ requires ctx: arg0 != nil && (is(arg0, *expressions.context) ==> pl_ptr(arg0) != 0)
 //@ assigns *
+//@ panics nothing
 //@ ensures keeps: @evalkeeps
 //@ ensures tree: @tree
 //@ typeinv expressions.expression: self.evaluator != nil
@@ -158,7 +159,7 @@ package expressions
 //@ props C08 C01
 //@ ensures standardFiltersOnly: !result
 
-//@ typeinv expressions.context: forall(k, "Str", has(self.Config.filters, k) ==> kind(mapget(self.Config.filters, k)) == reflect.Func)
+//@ typeinv expressions.context: self.bindings != self.Config.filters && forall(k, "Str", has(self.Config.filters, k) ==> kind(mapget(self.Config.filters, k)) == reflect.Func)
 
 // x | f: a, b: the filter is looked up by name (unknown: UndefinedFilter), the receiver and
 // then each argument expression are evaluated once, in order, in the current bindings, and
@@ -381,12 +382,48 @@ package expressions
 //@ ensures contains: result != nil && result.Interface() == box(r, bool)
 
 // An expression object: evaluating it runs its evaluator (C08); the typed panic values are
-// turned into errors by the deferred recover, which the model does not execute - so the
-// contract lists them as possible panics of this function.
+// turned into errors by the deferred recover, which the model does not execute: `recovers`
+// records that as an explicit assumption (listed in evidence), everything else is proved.
 //@ func (expressions.expression).Evaluate
 //@ props C08 C01
-//@ panics values.TypeError, expressions.InterpreterError, expressions.UndefinedFilter, expressions.FilterError
+//@ panics nothing
+//@ recovers values.TypeError, expressions.InterpreterError, expressions.UndefinedFilter, expressions.FilterError
 //@ requires args: ctx != nil && (is(ctx, *expressions.context) ==> pl_ptr(ctx) != 0)
 //@ assigns *
 //@ ensures keeps: @evalkeeps
 //@ ensures tree: @tree
+
+// ---- remaining evaluation plumbing: panic-freedom (C01) ------------------------------------
+//@ func functype func(expressions.Context) (any, error)
+//@ names ctx
+//@ requires args: ctx != nil && (is(ctx, *expressions.context) ==> pl_ptr(ctx) != 0)
+//@ assigns *
+//@ ensures keeps: @evalkeeps
+//@ ensures tree: @tree
+//@ func functype func(ctx expressions.Context) (any, error)
+//@ names ctx
+//@ requires args: ctx != nil && (is(ctx, *expressions.context) ==> pl_ptr(ctx) != 0)
+//@ assigns *
+//@ ensures keeps: @evalkeeps
+//@ ensures tree: @tree
+//@ typeinv expressions.expressionWrapper: self.fn != nil
+//@ func (expressions.expressionWrapper).Evaluate
+//@ props C10 C01
+//@ panics nothing
+//@ requires args: ctx != nil && (is(ctx, *expressions.context) ==> pl_ptr(ctx) != 0)
+//@ assigns *
+//@ ensures keeps: @evalkeeps
+//@ ensures tree: @tree
+
+//@ typeinv expressions.closure: self.expr != nil && self.context != nil && (is(self.context, *expressions.context) ==> pl_ptr(self.context) != 0)
+//@ func (expressions.closure).Evaluate
+//@ props C01
+//@ panics nothing
+//@ assigns *
+
+//@ func (*expressions.context).Set
+//@ props C12 C01
+//@ panics nothing
+//@ requires recv: ctx != nil && ctx.bindings != nil
+//@ assigns M$has$Str$Val, M$val$Str$Val
+//@ ensures bound: mapset(ctx.bindings, name, value)
